@@ -69,6 +69,7 @@ class Flow:
         self.assigns: dict = {}
         self.alias_of: dict = {}
         self._mutated: set = set()
+        self._if_tests: dict = {}
         self._loop_stored: list = []
         self.consts = consts or {}
         self.acc = self._find_acc(func)
@@ -339,15 +340,44 @@ class Flow:
                 self.fact("unknown-stmt", type(s).__name__, None, None, None, s)
             else:
                 m(s)
-            # statements after `if c: continue/break/return/raise` run only when not c
+            # statements after an `if` that may leave the block (return/raise/continue/break,
+            # possibly nested) run only when its exit condition is false
             if isinstance(s, ast.If):
                 t_term = _terminates(s.body)
                 f_term = _terminates(s.orelse) if s.orelse else False
                 if t_term != f_term:
                     self.guards.append((self._last_if_test, not t_term))
                     pushed += 1
+                elif not t_term and not f_term and not self.keep_arms:
+                    ec = self._exit_cond([s])
+                    if ec is not None:
+                        self.guards.append((ec, False))
+                        pushed += 1
         for _ in range(pushed):
             self.guards.pop()
+
+    def _exit_cond(self, stmts):
+        """Condition (IR) under which the statement list leaves the enclosing block; None = never / unknown."""
+        conds = []
+        for st in stmts:
+            if isinstance(st, (ast.Return, ast.Raise, ast.Continue, ast.Break)):
+                return ("const", True)
+            if isinstance(st, ast.If):
+                c = self._if_tests.get(id(st))
+                if c is None:
+                    continue
+                a = self._exit_cond(st.body)
+                b = self._exit_cond(st.orelse) if st.orelse else None
+                if a == ("const", True) and b == ("const", True):
+                    return ("const", True)
+                if a is not None:
+                    conds.append(c if a == ("const", True) else ("bool", "And", (c, a)))
+                if b is not None:
+                    nc = ("unop", "Not", c)
+                    conds.append(nc if b == ("const", True) else ("bool", "And", (nc, b)))
+        if not conds:
+            return None
+        return conds[0] if len(conds) == 1 else ("bool", "Or", tuple(conds))
 
     def s_Assign(self, s):
         v = self.ev(s.value)
@@ -479,6 +509,7 @@ class Flow:
     def s_If(self, s):
         c = self.ev(s.test)
         self._cur_if = c
+        self._if_tests[id(s)] = c
         pre = dict(self.env)
         self.guards.append((c, True))
         self.block(s.body)
